@@ -654,12 +654,12 @@ func (server *Server) registerCoreExecutors() {
 			return nil, err
 		}
 
-		start, startEx, err := nextRangeScoreIndexArgument(cmd, "start", args)
+		startStr, err := nextStringArgument(cmd, "start", args)
 		if err != nil {
 			return nil, err
 		}
 
-		stop, stopEx, err := nextRangeScoreIndexArgument(cmd, "stop", args)
+		stopStr, err := nextStringArgument(cmd, "stop", args)
 		if err != nil {
 			return nil, err
 		}
@@ -670,12 +670,29 @@ func (server *Server) registerCoreExecutors() {
 		}
 
 		if opt.BYSCORE {
+			start, startEx, err := parseRangeScoreIndex(cmd, "start", startStr)
+			if err != nil {
+				return nil, err
+			}
+			stop, stopEx, err := parseRangeScoreIndex(cmd, "stop", stopStr)
+			if err != nil {
+				return nil, err
+			}
 			opt.MINEXCLUSIVE = startEx
 			opt.MAXEXCLUSIVE = stopEx
 			return server.userCommandHandler.ZRangeByScore(conn, key, start, stop, opt)
 		}
 
-		return server.userCommandHandler.ZRange(conn, key, int(start), int(stop), opt)
+		start, err := strconv.Atoi(startStr)
+		if err != nil {
+			return nil, newInvalidArgumentError(cmd, "start", err)
+		}
+		stop, err := strconv.Atoi(stopStr)
+		if err != nil {
+			return nil, newInvalidArgumentError(cmd, "stop", err)
+		}
+
+		return server.userCommandHandler.ZRange(conn, key, start, stop, opt)
 	})
 
 	server.RegisterExexutor("ZREVRANGE", func(conn *Conn, cmd string, args Arguments) (*Message, error) {
